@@ -1047,19 +1047,29 @@ fn crash_history(seed: u64, sc: usize, k: Option<usize>, out: Box<dyn std::io::W
             // answer to the request sent right before the process died, or an eager peer)
             if !sim.dead {
                 env.connect(&mut sim, 0);
+                // (a peer can only be proven again with a header above the stored tip)
+                env.grow(&sim, 0, 1);
                 env.send_last_state(&mut sim, 0);
                 if !sim.crashed && !sim.dead { env.refresh(&mut sim); }
                 while !sim.crashed && !sim.dead && env.answer_proof(&mut sim, 0) {}
                 if !sim.crashed && !sim.dead { env.refresh(&mut sim); }
-                for token in [2u64, 1] {
+                // (check points, their finalization by the refresh tick, then the filter hashes)
+                for token in [2u64, 1, 2, 1, 1] {
                     if sim.crashed || sim.dead { break; }
                     env.filter_tick(&mut sim, token, true);
                     for _ in 0..6 {
                         if sim.crashed || sim.dead || !env.answer_filter(&mut sim, 0, interval) { break; }
                     }
+                    if token == 2 && !sim.crashed && !sim.dead { env.refresh(&mut sim); }
                 }
                 if !sim.crashed && !sim.dead {
+                    // (single filters: a batch without any match is the interesting one, while the record that was
+                    //  pending at the crash is still only in the store)
+                    let keep = env.peers[0].server.filters_batch;
+                    env.peers[0].server.filters_batch = 1;
                     env.unsolicited_filters(&mut sim, 0);
+                    env.unsolicited_filters(&mut sim, 0);
+                    env.peers[0].server.filters_batch = keep;
                 }
                 if sim.crashed { sim.crashed = false; env.after_crash(); }
             }
